@@ -695,7 +695,76 @@ def rule_zero_budget(ctx) -> None:
     zero_budget_rule(ctx, "C13.CAP", ["clematis.engine.stages.t3.bundle", "clematis.engine.stages.t3.policy", "clematis.engine.stages.t3.legacy"], 3)
 
 
+def rule_refinement_keeps_the_speak_budget(ctx) -> None:
+    """"the utterance never exceeds its token budget" across the retrieval refinement: rag_once replaces the plan's Speak op by a
+    fresh one (new intent).  The budget of the replacement must depend on the replaced op's own max_tokens (min with the
+    configured t3.tokens) - a fresh op built from the configuration alone silently widens a Speak budget the plan had set
+    lower, and the spoken line exceeds the budget the plan asked for."""
+    rq = "clematis.engine.stages.t3.legacy:rag_once"
+    fn = ctx.func(rq)
+    cfg = ctx.cfg(fn)
+    rd = ctx.rd(fn)
+    n = 0
+    for lp in [x for x in walk_no_defs(fn.node) if isinstance(x, ast.For) and isinstance(x.target, ast.Name)]:
+        v = lp.target.id
+        for st in lp.body:
+            for x in ast.walk(st):
+                if isinstance(x, ast.Call) and call_tail(x) == "SpeakOp":
+                    mt = kwarg(x, "max_tokens")
+                    if mt is None:
+                        continue
+                    n += 1
+                    at = cfg.node_containing(x)
+                    sl = rd.slice([mt], at[0], control=False) if at else None
+                    reads_own = sl is not None and any((isinstance(y, ast.Attribute) and y.attr == "max_tokens" and isinstance(y.value, ast.Name) and y.value.id == v)
+                                                       or (isinstance(y, ast.Call) and dotted(y.func) == "getattr" and len(y.args) >= 2 and isinstance(y.args[0], ast.Name) and y.args[0].id == v
+                                                           and const_str(y.args[1]) == "max_tokens") for y in sl.nodes())
+                    narrows = sl is not None and any(isinstance(y, ast.Call) and dotted(y.func) == "min" for y in sl.nodes())
+                    ctx.check(reads_own and narrows, "C13.TOK", ctx.okey(f"{fn.qual}/refined-speak-keeps-its-budget"), fn.loc(x), f"the replacement's budget `{src(mt)}` is min(configured tokens, the replaced op's own budget)",
+                              f"the Speak op that replaces `{v}` gets max_tokens=`{src(mt)}`, which does not depend on `{v}.max_tokens`: a plan whose Speak asked for fewer tokens than t3.tokens is widened by "
+                              "the retrieval refinement and the utterance exceeds the budget of the plan")
+    ctx.floor("C13.TOK", "Speak ops rebuilt by the retrieval refinement", n, 1)
+
+
+def rule_only_json_whitespace_is_trimmed(ctx) -> None:
+    """"accepted only if it is a single JSON object": what parse_and_validate hands to json.loads is the planner text minus an
+    optional fence and minus surrounding whitespace.  json.loads itself tolerates only space / tab / CR / LF around the value;
+    a bare str.strip() also removes NBSP, U+3000, form feed, U+2028 ... - text padded with those is not JSON, yet it would be
+    accepted.  Every strip on the way from the text to json.loads names the JSON whitespace set."""
+    pv = ctx.func(SAN + ":parse_and_validate")
+    tparam = pv.params[0]
+    # the helpers the TEXT goes through (not those that look at values of the decoded object)
+    funcs = [ctx.prog.funcs[r[1]] for x in walk_no_defs(pv.node) if isinstance(x, ast.Call) and any(isinstance(a, ast.Name) and a.id == tparam for a in x.args)
+             for r in [ctx.prog.callee(pv, x)] if r and r[0] == "func" and r[1].startswith(SAN + ":")]
+    m = pv.module
+    n = 0
+    rdp = ctx.rd(pv)
+    cfgp = ctx.cfg(pv)
+    for f in [pv] + funcs:
+        for x in walk_no_defs(f.node):
+            if isinstance(x, ast.Call) and isinstance(x.func, ast.Attribute) and x.func.attr in ("strip", "lstrip", "rstrip"):
+                if f is pv:
+                    at = cfgp.node_containing(x)
+                    sl = rdp.slice([x.func.value], at[0]) if at else None
+                    if sl is None or tparam not in sl.params:
+                        continue
+                # strips of the language tag do not decide what is parsed; those of the candidate text do - all are checked
+                n += 1
+                arg = x.args[0] if x.args else None
+                chars = const_str(arg) if arg is not None else None
+                if chars is None and isinstance(arg, ast.Name):
+                    g = m.globals_assigned.get(arg.id, [])
+                    chars = const_str(getattr(g[0], "value", None)) if len(g) == 1 else None
+                ok = chars is not None and set(chars) <= set(" \t\r\n")
+                ctx.check(ok, "C13.SCHEMA", ctx.okey(f"{f.qual}/trims-json-whitespace-only"), f.loc(x), f"`{src(x)[:40]}` removes JSON whitespace only",
+                          f"`{src(x)[:40]}` removes every Unicode space (NBSP, U+3000, form feed, U+2028, ...): planner text padded with characters JSON does not allow around a value is accepted as "
+                          "'a single JSON object'")
+    ctx.floor("C13.SCHEMA", "strips between the planner text and json.loads", n, 2)
+
+
 def run(ctx) -> None:
+    rule_only_json_whitespace_is_trimmed(ctx)
+    rule_refinement_keeps_the_speak_budget(ctx)
     rule_zero_budget(ctx)
     rule_cap(ctx)
     rule_rr(ctx)
